@@ -6,6 +6,7 @@ CONSTANTS
   Dev_NilSession = TRUE
   Dev_UnknownItem = TRUE
   Dev_BlockedFanout = TRUE
+  Dev_EndedSubFanout = TRUE
   SvcFilter = {}
 SPECIFICATION Spec
 INVARIANTS InvAliveAndResponsive
